@@ -21,6 +21,11 @@ BaseOps == <<
    members |-> {E4("10.1.0.0/16", 10, 1, 0, 0, 16, 16, 24)}],
   [op |-> "AddSet", kind |-> "prefix",   name |-> "ps2", replace |-> FALSE,
    members |-> {E4("10.1.1.0/24", 10, 1, 1, 0, 24, 25, 32), E4("10.0.0.0/8", 10, 0, 0, 0, 8, 8, 16)}],
+  \* nested entries with different mask-length ranges: the LONGEST covering entry (/16 exact, /24 25..32)
+  \* does not admit 10.1.1.0/24, a shorter one (/8 8..32) does - "any" quantifies over ALL members
+  [op |-> "AddSet", kind |-> "prefix",   name |-> "ps3", replace |-> FALSE,
+   members |-> {E4("10.1.1.0/24", 10, 1, 1, 0, 24, 25, 32), E4("10.1.0.0/16", 10, 1, 0, 0, 16, 16, 16),
+                E4("10.0.0.0/8", 10, 0, 0, 0, 8, 8, 32)}],
   [op |-> "AddSet", kind |-> "neighbor", name |-> "ns1", replace |-> FALSE, members |-> {"10.0.0.1/32"}],
   [op |-> "AddSet", kind |-> "neighbor", name |-> "ns2", replace |-> FALSE, members |-> {"10.0.0.0/24", "10.9.9.9/32"}],
   [op |-> "AddSet", kind |-> "aspath",   name |-> "as1", replace |-> FALSE,
@@ -37,6 +42,7 @@ BaseProgram == ApplyAll(EmptyProgram, BaseOps, 1)
 
 SC(k, s, o) == Cond(k, s, o, "", 0, {})
 SetConds == {SC("prefix", "ps1", "any"), SC("prefix", "ps1", "invert"), SC("prefix", "ps2", "any"),
+             SC("prefix", "ps3", "any"), SC("prefix", "ps3", "invert"),
              SC("neighbor", "ns1", "any"), SC("neighbor", "ns1", "invert"), SC("neighbor", "ns2", "invert"),
              SC("aspath", "as1", "any"), SC("aspath", "as1", "all"), SC("aspath", "as2", "invert"),
              SC("comm", "cs1", "any"), SC("comm", "cs1", "all"), SC("comm", "cs1", "invert"),
@@ -100,7 +106,7 @@ TinyRoutes == <<
     <<"65001:100">>, <<"rt:65001:100">>, <<"65001:1:1">>, "valid", FALSE),
   R(P4("10.1.0.0/16", 10, 1, 0, 0, 16), "B", "192.0.2.2", <<>>, 2, -1, 200, <<>>, <<>>, <<>>, "not-found", TRUE),
   R(P4("10.2.0.0/16", 10, 2, 0, 0, 16), "C", "192.0.2.1", <<65002, 65001>>, 1, 5, -1,
-    <<"65001:100", "65002:100">>, <<"rt:65002:200">>, <<>>, "invalid", FALSE),
+    <<"65001:100", "65002:100">>, <<ExtLB, "rt:65002:200">>, <<>>, "invalid", FALSE),
   R(P6("2001:db8:1::/48", 8193, 3512, 1, 0, 48), "D", "2001:db8:ee::1", <<65003>>, 0, -1, -1,
     <<"65100:10">>, <<>>, <<"65001:1:1", "65001:1:2">>, "valid", FALSE),
   R(P4("10.1.1.128/25", 10, 1, 1, 128, 25), "local", "192.0.2.1", <<>>, 0, -1, -1, <<>>, <<"soo:65001:100">>, <<>>, "not-found", TRUE),
